@@ -71,6 +71,19 @@ def run(ctx):
                 continue
             s = uc.site(b, blk.idx)
             kinds = sorted({gl.guard_locals[l] for l in live})
+            if s is None and t["k"] == "call" and prog.body_for_callee(t["callee"]) is None:
+                # a closure handed BY VALUE to library code while the guard is live: when the library does not call it
+                # (`or_insert_with` on an occupied entry, `unwrap_or_else` on Some, ..) it drops it - and with it whatever the
+                # closure captured by move. Captured state with a user destructor is user code under the lock.
+                from ..analysis import closure_capture_ops, ty_mentions_user
+                for ta in t["callee"].get("targs", []):
+                    for ck in ta.get("closures", []):
+                        for _cbb, ops in closure_capture_ops(b, strip_generics(ck)):
+                            for o in ops:
+                                if o.get("k") == "move" and not o["place"]["p"]:
+                                    cty = b.local_ty(o["place"]["l"])
+                                    if cty.get("needs_drop") and ty_mentions_user(cty):
+                                        s = {"kind": "U2-captured-drop", "what": f"closure capturing `{cty['s'][:60]}` by move handed to {callee_key(t['callee']).split('::')[-1]}", "contained": False, "chain": ""}
             if s is None:
                 if t["k"] == "call":
                     ctx.ob("R1.no-user-code-under-registry-lock", f"{short(b.key)}|{'+'.join(kinds)}|{short(callee_key(t['callee']))}", True,
@@ -292,6 +305,46 @@ def run(ctx):
         leaks = any(t is ft for _k, _b, t in rsl["calls"] for _bb, ft in fam)
         ctx.ob("R7.exposed-family-comes-from-registry", "try_initialize.created-family-not-returned", bool(fam) and not leaks, ti2.loc(),
                f"family() creation sites {len(fam)}; the created family flows into the return value: {leaks}")
+    provider_door_rule(ctx, prog)
+
+
+def provider_door_rule(ctx, prog):
+    """The user's first-instance provider creates a FAMILY: it may be invoked only by the one function that arbitrates through
+    the global registry. Every use of the `first_instance_provider` field is either handing it to that function or a
+    constructor; it is never called in place and never handed to anything else."""
+    RID = "R7.exposed-family-comes-from-registry"
+    bad, n = [], 0
+    for b in prog.bodies:
+        if "static_instances::" not in b.key or "::tests" in b.key or (b.impl_trait or "").endswith("fmt::Debug"):
+            continue   # (Debug prints the pointer, it cannot call it)
+        for bb, t in b.calls():
+            if b.blocks[bb].cleanup:
+                continue
+            c = t["callee"]
+            used = False
+            if c.get("rkind") == "indirect" and c.get("op"):
+                _r, fs = op_access_path(b, c["op"])
+                if fs and any(f.endswith("::first_instance_provider") for f in fs):
+                    used = True
+                    bad.append(f"called in place in {short(b.key)} at {b.loc(t['span'])}")
+            for i, a in enumerate(t["args"]):
+                if op_place(a) is None:
+                    continue
+                sl = Slice(b, through_calls=False).run(a)
+                if any(f.endswith("::first_instance_provider") for f in sl["fields"]) and not sl["calls"]:
+                    used = True
+                    if not callee_key(c).endswith("StaticInstances::try_initialize_global_registry"):
+                        # receiver `&self` of a method of the same type passes the whole struct, not the field
+                        if any(f.endswith("::first_instance_provider") for f in (op_access_path(b, a)[1] or [])):
+                            bad.append(f"handed to {callee_key(c).split('::')[-1]} in {short(b.key)} at {b.loc(t['span'])}")
+            if used:
+                n += 1
+    if n == 0:
+        ctx.missing(RID, "uses of StaticInstances::first_instance_provider")
+        return
+    ctx.ob(RID, "provider-only-through-the-registry-door", not bad, "",
+           f"{n} use(s) of the first-instance provider field; outside try_initialize_global_registry: {bad or 'none'}" +
+           ("" if not bad else " - a family created there is never registered: instances made from it do not share state with the real family"))
 
 
 def reaches(prog, uc, body, target, depth=8):
